@@ -748,6 +748,14 @@ impl Version {
         let first_key: &[u8] = &sst.first_key;
         let last_key: &[u8] = &sst.last_key;
         let upper_level = lower_level + 1;
+        // A file that shares a boundary key with a sibling in its level cannot move on its own:
+        // the versions of that key the sibling holds would be left above or below the wrong ones.
+        if lower_level > 0
+            && self.levels[lower_level].lower_bound(first_key) + 1
+                != self.levels[lower_level].upper_bound(last_key)
+        {
+            return (None, i64::MIN);
+        }
         if upper_level < self.levels.len()
             && self.levels[upper_level].lower_bound(first_key)
                 == self.levels[upper_level].upper_bound(last_key)
